@@ -538,3 +538,27 @@ Definition no_split (ls : list str) : bool := negb (has_other ls) || match fst (
 
 Definition fmt_verbatim_guard (bp : str) : bool :=
   stable_lines None false (split_nl bp) && no_split (split_nl bp).
+
+(* ---------- regeneration: writing the output file (internal/cmd/mockery.go, RootApp.Run) ---------- *)
+(* One run render_files the whole file from the settings of THAT run and writes it with
+   pathlib.WriteFile (truncate + write): `if outFileExists && !force-file-write -> error
+   "outfile exists"`, otherwise the file's new content is exactly the render_fileed bytes; what was in
+   the file before is never read.  [body] = the bytes after the package clause line (imports and
+   mocks; a parameter here). *)
+Record settings := { s_fmt : formatter; s_tmpl : tmpl; s_bp : option str; s_tags : option str; s_pkg : str }.
+Inductive wres := WOk | WExists.
+
+Section Regen.
+  Variable body : settings -> str.
+  Definition render_file (s : settings) : str :=
+    header (s_fmt s) (s_tmpl s) (s_bp s) (s_tags s) ++ pkg_line (s_pkg s) ++ body s.
+  (* one run; [old] = content of the output file before it (None = absent) *)
+  Definition write_step (old : option str) (force : bool) (s : settings) : option str * wres :=
+    match old with
+    | Some _ => if force then (Some (render_file s), WOk) else (old, WExists)
+    | None => (Some (render_file s), WOk)
+    end.
+  (* a history of runs over the same output path: (force-file-write, settings) per run *)
+  Definition regen (old : option str) (hist : list (bool * settings)) : option str :=
+    fold_left (fun f r => fst (write_step f (fst r) (snd r))) hist old.
+End Regen.
